@@ -223,6 +223,10 @@ def step (s : St) : Label → Option St
     | .running => some (populated s src)
     | .idle => none
 
+/-- `j == it` for two credentials as `Vault._update_converted` compares them (`info not in
+    [invalid infos]`, dataclass equality): the same credential value AND the same priority. -/
+def matches_ (j it : Item) : Prop := j.info = it.info ∧ j.prio = it.prio
+
 def run (s : St) : List Label → Option St
   | [] => some s
   | l :: ls => match step s l with
